@@ -656,9 +656,11 @@ def observe_prox(B, sig, kind, xvals, zstar, rnd, style=0, want_idem=False):
           'slackq': PROBE_SLACKQ, 'finite': 0, 'Fpq': 0, 'p': [], 'probes': [], 'idemq': -1}
     try:
         P = B.prox(B.sigma_arg(sig, kind, style))
-    except NotImplementedError:
-        info['err'] = 'NotImplementedError'
-        return None, info                      # the functional does not offer a proximal
+    except (NotImplementedError, ValueError) as e:
+        # the functional does not offer a proximal / refuses it with an explanation (e.g. "proximal operator of
+        # functional scaled with a negative value is not well-defined"): outside "every f that offers a proximal"
+        info['err'] = type(e).__name__
+        return None, info
     except Exception as e:
         info['err'] = 'factory:' + type(e).__name__ + ': ' + str(e)[:100]
         return ev, info
